@@ -493,7 +493,7 @@ func rich(r *rand.Rand, c RichCfg) *spec.Grammar {
 		switch r.Intn(5) {
 		case 0, 1: // literal
 			ch := int(litChars[r.Intn(len(litChars))])
-			for usedLit[ch] || ch == '\\' {
+			for usedLit[ch] || usedNum[ch] || ch == '\\' {
 				ch = int(litChars[r.Intn(len(litChars))])
 			}
 			usedLit[ch] = true
@@ -515,7 +515,12 @@ func rich(r *rand.Rand, c RichCfg) *spec.Grammar {
 					if r.Intn(2) == 0 {
 						n = 128 + r.Intn(800)
 					}
-					if !usedNum[n] {
+					if r.Intn(8) == 0 {
+						// around the 8-, 16- and 20-bit sizes
+						n = []int{255, 256, 257, 65535, 65536, 65537, 1 << 20, 1<<20 + 1}[r.Intn(8)]
+					}
+					// a number equal to the code of a literal of the same grammar would be the user's own collision
+					if !usedNum[n] && !usedLit[n] {
 						usedNum[n] = true
 						t.Num = n
 						break
